@@ -1478,6 +1478,41 @@ func secretSession(c *Ctx) sessS {
 	return s
 }
 
+// wrongRecipient: the content key must be wrapped for the certificate the SP advertises for encryption — the first
+// certificate of its first use="encryption" descriptor, else of its first unlabeled descriptor that has one.
+func wrongRecipient(raw []byte, keys []mdKey) string {
+	want := ""
+	for _, k := range keys {
+		if k.Use == "encryption" {
+			if len(k.Certs) > 0 {
+				want = k.Certs[0]
+			}
+			break
+		}
+	}
+	if want == "" {
+		for _, k := range keys {
+			if k.Use == "" && len(k.Certs) > 0 && k.Certs[0] != "" {
+				want = k.Certs[0]
+				break
+			}
+		}
+	}
+	strip := func(s string) string { return regexp.MustCompile(`\s+`).ReplaceAllString(s, "") }
+	doc := etree.NewDocument()
+	if doc.ReadFromBytes(raw) != nil {
+		return ""
+	}
+	x := doc.FindElement("//EncryptedKey/KeyInfo/X509Data/X509Certificate")
+	if x == nil {
+		return "EncryptedKey names no recipient certificate"
+	}
+	if strip(x.Text()) != strip(want) {
+		return "the content key is wrapped for a certificate other than the one the SP advertises for encryption"
+	}
+	return ""
+}
+
 func advertises(keys []mdKey) bool {
 	for _, k := range keys {
 		if k.Use == "encryption" {
@@ -1547,7 +1582,9 @@ func (c *Ctx) genC08() {
 			} else if d.dec.assertion == nil {
 				orc = "key=c08-unrecoverable " + note
 			} else if d.dec.encrypted {
-				if w := clearScan(d.dec.xml, d.body, sc.sess); w != "" {
+				if w := wrongRecipient(d.dec.xml, keys); w != "" {
+					orc = "key=c08-wrong-recipient " + w
+				} else if w := clearScan(d.dec.xml, d.body, sc.sess); w != "" {
 					orc = "key=c08-clear-string " + w
 				} else if plainWithOther(c, d.dec.xml) {
 					orc = "key=c08-foreign-key the assertion decrypts with a key that is not the SP's"
